@@ -71,33 +71,49 @@ Lemma sd_objects X c m :
   ∃ m', foldO remove_object owned m = Done m' ∧ MX X m' ∧ blank_osc (ms m') = blank_osc (ms m) ∧
     w_abort (mw m') = w_abort (mw m) ∧ calls (ms m') ⊆ calls (ms m) ∧
     objs (ms m') ⊆ objs (ms m) ∧ svcs (ms m') ⊆ svcs (ms m) ∧
-    own_obj (X ∖ {[c]}) (objs (ms m')).
+    own_obj (X ∖ {[c]}) (objs (ms m')) ∧
+    (∀ u o, objs (ms m) !! u = Some o → o_owner o ≠ c → objs (ms m') !! u = Some o).
 Proof.
   intros H owned.
   destruct (foldO_inv (fun m' rest =>
       MX X m' ∧ blank_osc (ms m') = blank_osc (ms m) ∧ w_abort (mw m') = w_abort (mw m) ∧
       calls (ms m') ⊆ calls (ms m) ∧ objs (ms m') ⊆ objs (ms m) ∧ svcs (ms m') ⊆ svcs (ms m) ∧
-      ∀ u o, objs (ms m') !! u = Some o → o_owner o = c → o_cookie o ∈ rest) remove_object owned m)
-    as (m2 & Hf & H2 & Hb & Hwa & Hc & Ho & Hs & Hnone).
+      (∀ u o, objs (ms m') !! u = Some o → o_owner o = c → o_cookie o ∈ rest) ∧
+      (∀ u o, objs (ms m) !! u = Some o → o_owner o ≠ c → objs (ms m') !! u = Some o) ∧
+      (∀ y, y ∈ rest → ∃ u o, objs (ms m) !! u = Some o ∧ o_owner o = c ∧ o_cookie o = y)) remove_object owned m)
+    as (m2 & Hf & H2 & Hb & Hwa & Hc & Ho & Hs & Hnone & Hkeep & _).
   { split; [done|]. split; [done|]. split; [done|]. split; [done|]. split; [done|]. split; [done|].
-    intros u o Hu Hoc. subst owned. apply elem_of_list_fmap. exists (u, o). split; [done|].
-    apply elem_of_List_filter. split; [by apply elem_of_map_to_list|]. by apply bool_decide_eq_true. }
-  { intros m' x rest (I1 & I2 & I3 & I4 & I5 & I6 & I7).
+    split; [|split; [done|]].
+    - intros u o Hu Hoc. subst owned. apply elem_of_list_fmap. exists (u, o). split; [done|].
+      apply elem_of_List_filter. split; [by apply elem_of_map_to_list|]. by apply bool_decide_eq_true.
+    - intros y Hy. subst owned. apply elem_of_list_fmap in Hy as ([u o] & -> & Hy).
+      apply elem_of_List_filter in Hy as [Hy Hb]. apply elem_of_map_to_list in Hy.
+      apply bool_decide_eq_true in Hb. exists u, o. done. }
+  { intros m' x rest (I1 & I2 & I3 & I4 & I5 & I6 & I7 & I8 & I9).
     destruct (remove_object_spec X m' x I1) as (m'' & -> & J1 & J2 & J3 & J4 & J5 & J6).
     exists m''. split; [done|]. split; [done|]. split; [congruence|]. split; [congruence|].
     split; [etrans; eauto|].
     assert (objs (ms m'') ⊆ objs (ms m')) as Hss.
     { rewrite J6. destruct (obj_by_cookie (ms m') x) as [[u' o']|]; [apply delete_subseteq|done]. }
     split; [etrans; eauto|]. split; [etrans; eauto|].
-    intros u o Hu Hoc. pose proof (lookup_weaken _ _ _ _ Hu Hss) as Hu'.
-    pose proof (I7 _ _ Hu' Hoc) as Hin. apply elem_of_cons in Hin as [Heq|Hin]; [|done]. exfalso.
-    rewrite J6 in Hu. destruct (obj_by_cookie (ms m') x) as [[u' o']|] eqn:E'.
-    - apply obj_by_cookie_Some in E' as [E1 E2].
-      assert (u' = u) as -> by (eapply (iv_uo _ _ _ _ _ I1); eauto; congruence).
-      by rewrite lookup_delete in Hu.
-    - eapply obj_by_cookie_None; eauto. }
+    split; [|split].
+    - intros u o Hu Hoc. pose proof (lookup_weaken _ _ _ _ Hu Hss) as Hu'.
+      pose proof (I7 _ _ Hu' Hoc) as Hin. apply elem_of_cons in Hin as [Heq|Hin]; [|done]. exfalso.
+      rewrite J6 in Hu. destruct (obj_by_cookie (ms m') x) as [[u' o']|] eqn:E'.
+      + apply obj_by_cookie_Some in E' as [E1 E2].
+        assert (u' = u) as -> by (eapply (iv_uo _ _ _ _ _ I1); eauto; congruence).
+        by rewrite lookup_delete in Hu.
+      + eapply obj_by_cookie_None; eauto.
+    - intros u o Hu Hoc. specialize (I8 _ _ Hu Hoc). rewrite J6.
+      destruct (obj_by_cookie (ms m') x) as [[u' o']|] eqn:E'; [|done].
+      apply obj_by_cookie_Some in E' as [E1 E2].
+      rewrite lookup_delete_ne; [done|]. intros ->. rewrite E1 in I8. inversion I8; subst o'.
+      destruct (I9 x ltac:(left)) as (u0 & o0 & G1 & G2 & G3).
+      assert (u0 = u) as -> by (eapply (iv_uo _ _ _ _ _ H); eauto; congruence).
+      rewrite Hu in G1. inversion G1; subst. done.
+    - intros y Hy. apply I9. by right. }
   exists m2. split; [done|]. split; [done|]. split; [done|]. split; [done|]. split; [done|].
-  split; [done|]. split; [done|].
+  split; [done|]. split; [done|]. split; [|done].
   intros u o Hu. apply elem_of_difference. split; [eapply (iv_oo _ _ _ _ _ H2); eauto|].
   intros Hc'%elem_of_singleton. specialize (Hnone _ _ Hu Hc'). by apply not_elem_of_nil in Hnone.
 Qed.
